@@ -165,6 +165,7 @@ type tkCtx struct {
 	entry string // KSet key
 	args  string // constant string arguments "idx=val;…"
 	rec   bool   // analysed as a recovery handler (recover() yields non-nil)
+	clean bool   // error recovery switched off: a raise ends the path even inside a recovery point
 }
 
 type ctxInfo struct {
@@ -469,6 +470,7 @@ func (tk *TKAI) refine(ci *ctxInfo, st *TState, cond ssa.Value, branch bool) *TS
 // ---- flow ---------------------------------------------------------------------------------------
 
 type flowResult struct {
+	consumedAt map[ssa.Instruction]KSet // first consumptions (not-consumed state consumes here) -> fact
 	ci  *ctxInfo
 	in  map[*ssa.BasicBlock][2]*TState
 	ret []*retState // states before Return instructions
@@ -676,6 +678,21 @@ func (tk *TKAI) runBlock(ci *ctxInfo, b *ssa.BasicBlock, st0 *TState, rec *flowR
 
 func (tk *TKAI) step(ci *ctxInfo, st *TState, in ssa.Instruction, rec *flowResult) []*TState {
 	w := tk.w
+	if rec != nil && !st.consumed {
+		if _, isCall := in.(ssa.CallInstruction); isCall {
+			pre := st.cur
+			outs := tk.step(ci, st, in, nil)
+			for _, o := range outs {
+				if o.consumed {
+					if rec.consumedAt == nil {
+						rec.consumedAt = map[ssa.Instruction]KSet{}
+					}
+					rec.consumedAt[in] = rec.consumedAt[in].Join(pre)
+				}
+			}
+			return outs
+		}
+	}
 	switch in := in.(type) {
 	case *ssa.UnOp:
 		if in.Op == token.MUL {
@@ -833,7 +850,7 @@ func (tk *TKAI) applyCallee(ci *ctxInfo, st *TState, in ssa.CallInstruction, cal
 			}
 		}
 	}
-	sum := tk.summary(callee, st.cur, consts, false)
+	sum := tk.summaryMode(callee, st.cur, consts, false, ci != nil && ci.key.clean)
 	var outs []*TState
 	if sum.pass.m != nil && !sum.pass.IsEmpty() {
 		if resVal != nil && len(sum.passNil) == 1 && refLikeOrIface(resVal) {
@@ -1018,7 +1035,11 @@ func constsKey(m map[int]string) string {
 // summary returns the current approximation of a context's summary, registering the context and
 // the dependency of the context being computed on it.
 func (tk *TKAI) summary(fn *ssa.Function, entry KSet, consts map[int]string, rec bool) *TSummary {
-	key := tkCtx{fn, entry.Key(), constsKey(consts), rec}
+	return tk.summaryMode(fn, entry, consts, rec, false)
+}
+
+func (tk *TKAI) summaryMode(fn *ssa.Function, entry KSet, consts map[int]string, rec, clean bool) *TSummary {
+	key := tkCtx{fn, entry.Key(), constsKey(consts), rec, clean}
 	if tk.readers == nil {
 		tk.readers = map[tkCtx]map[tkCtx]bool{}
 		tk.queued = map[tkCtx]bool{}
@@ -1203,7 +1224,7 @@ func (tk *TKAI) compute(ci *ctxInfo) *TSummary {
 	}
 	// recovery path: a raise inside the protected body continues in the handler with the token state
 	// of the clone point (function entry)
-	if _, handlers := recoverDefers(fn); len(handlers) > 0 && !ci.key.rec {
+	if _, handlers := recoverDefers(fn); len(handlers) > 0 && !ci.key.rec && !ci.key.clean {
 		for _, h := range handlers {
 			hs := tk.summary(h, ci.entry, nil, true)
 			if hs.pass.m != nil && !hs.pass.IsEmpty() {
